@@ -11,7 +11,7 @@ namespace Clipper2Lib {
   struct Active;
   namespace verif {
     // H1: bookkeeping events of the active edge list (see /verif DESIGN.md 4.3)
-    enum AelEvent { kInsertPair = 0, kInsertOne = 1, kIntersect = 2, kRemovePair = 3, kRemoveOne = 4, kSnapshot = 5 };
+    enum AelEvent { kInsertPair = 0, kInsertOne = 1, kIntersect = 2, kRemovePair = 3, kRemoveOne = 4, kSnapshot = 5, kJoin = 6, kSplit = 7 };
     typedef void (*AelSink)(int event, const ClipperBase* clipper, const Active* edge);
     inline AelSink& ael_sink() { static thread_local AelSink sink = nullptr; return sink; }
   }
